@@ -43,13 +43,14 @@ def find_body(src, header_re, what):
 
 
 class Skeleton:
-    def __init__(self, name, body, atoms, effects, rets, scans=(), flags=("w",), sets=None, consts=None):
+    def __init__(self, name, body, atoms, effects, rets, scans=(), flags=("w",), sets=None, consts=None, flag_effects=None):
         """sets: effect text -> (atom text, [terms]): the statement gives the atom a new value -- the next term of the list for each
         occurrence of the statement in the source ("true"/"false" or the name of a fresh parameter);
         consts: effect text -> (variable, value): `return variable` then returns that value"""
         self.name, self.atoms, self.effects, self.rets = name, atoms, set(effects), rets
         self.sets = {k: (v[0], list(v[1])) for k, v in (sets or {}).items()}
         self.consts = dict(consts or {})
+        self.flag_effects = dict(flag_effects or {})       # effect text -> flag it raises (what the call stores)
         self.node_term = {}
         self.scans = list(scans)
         self.flags = list(flags)
@@ -127,7 +128,7 @@ class Skeleton:
         return "(%s)" % ", ".join([val] + [env[f] for f in self.flags])
 
     def expected_effects(self):
-        return self.effects | set(self.sets)
+        return self.effects | set(self.sets) | set(self.flag_effects)
 
     def stmts(self, ss, env, ind):
         pad = "  " * ind
@@ -147,6 +148,9 @@ class Skeleton:
             env = dict(env)
             env["a:" + atom] = self.node_term[id(s)]
             return self.stmts(rest, env, ind)
+        if s[0] == "expr" and cmini.show(s[1]) in self.flag_effects:
+            self.seen_effects.add(cmini.show(s[1]))
+            return self.stmts(rest, self.flag_set(env, self.flag_effects[cmini.show(s[1])]), ind)
         if s[0] == "expr" and cmini.show(s[1]) in self.consts:
             var, val = self.consts[cmini.show(s[1])]
             env = dict(env)
@@ -183,6 +187,32 @@ class Skeleton:
             th = self.stmts([s[2]] + rest, env, ind + 1)
             el = self.stmts(([s[3]] if s[3] else []) + rest, env, ind + 1)
             return [pad + "if %s then" % c] + th + [pad + "else"] + el
+        if k == "switch":
+            # arms that end in `break` or `return`; no fall-through between non-empty arms (the parser merges stacked labels)
+            arms = s[2]
+            default = None
+            chain = []
+            for labels, body in arms:
+                if body and body[-1] == ("break",):
+                    body = body[:-1]
+                elif not (body and body[-1][0] == "return"):
+                    raise PipelineError("%s: a switch arm that falls through" % self.name)
+                if "default" in labels:
+                    default = body
+                    labels = [l for l in labels if l != "default"]
+                    if labels:
+                        raise PipelineError("%s: default stacked with other labels" % self.name)
+                    continue
+                chain.append((labels, body))
+            def build(i, ind2):
+                p2 = "  " * ind2
+                if i == len(chain):
+                    return self.stmts(list(default if default is not None else []) + rest, env, ind2)
+                labels, body = chain[i]
+                cs = [self.cond(("bin", "==", s[1], l), env) for l in labels]
+                c = cs[0] if len(cs) == 1 else "(" + " ∨ ".join(cs) + ")"
+                return [p2 + "if %s then" % c] + self.stmts(list(body) + rest, env, ind2 + 1) + [p2 + "else"] + build(i + 1, ind2 + 1)
+            return build(0, ind)
         if k == "for":
             # for (P = S; P[0] != '.'; P++) { if (P[0] == '\0') { …; return 1; } }   -- the scan for the next dot
             init, cnd, step, body = s[1], s[2], s[3], s[4]
@@ -291,6 +321,47 @@ def generate(repo):
          "jwt-common.c `jwt_checker_verify` (FUNC(verify)): `tokenEmpty` = `strlen(token)` is 0; `jwtNull` / `claimsCopyNull` = an allocation failed; "
          "`cbRetZero` = the callback returned 0; `setkeyFails` = `__setkey_check` on what the callback left refused (it has written the message); "
          "`errFlag` = the checker's error flag after `jwt_verify_complete` and the copy")
+    # ---- jwt_checker_setkey / jwt_checker_setcb (the shared template FUNC(setkey) / FUNC(setcb)) ----
+    body = find_body(com_raw, r"\nint\s+FUNC\s*\(\s*setkey\s*\)\s*\(", "FUNC(setkey)")
+    sk = Skeleton("FUNC(setkey)", body, atoms={"__setkey_check(__cmd, alg, key)": ("setkeyFails", "bool")}, effects={"__cmd->c->alg = alg"},
+                  flag_effects={"__cmd->c->key = key": "stored"}, rets={"0": "0", "1": "1"}, flags=("w", "stored"))
+    emit(sk, "setkey", [("setkeyFails", "Bool")],
+         "jwt-common.c `FUNC(setkey)` (`jwt_checker_setkey` / `jwt_builder_setkey`): `stored` = algorithm and key were written into the object; "
+         "`setkeyFails` = `__setkey_check` refused the pair (it has written the message)")
+    body = find_body(com_raw, r"\nint\s+FUNC\s*\(\s*setcb\s*\)\s*\(", "FUNC(setcb)")
+    sk = Skeleton("FUNC(setcb)", body,
+                  atoms={"__cmd": ("cmdNull", "ptr"), "cb": ("cbArgNull", "ptr"), "__cmd->c->cb": ("installedNull", "ptr"), "ctx": ("ctxNull", "ptr")},
+                  effects={"__cmd->c->cb_ctx = ctx"}, flag_effects={"__cmd->c->cb = cb": "stored"}, rets={"0": "0", "1": "1"}, flags=("w", "stored"))
+    emit(sk, "setcb", [("cmdNull", "Bool"), ("cbArgNull", "Bool"), ("installedNull", "Bool"), ("ctxNull", "Bool")],
+         "jwt-common.c `FUNC(setcb)`: `stored` = the callback argument was written into the object (otherwise the installed one stays); "
+         "`cbArgNull` / `ctxNull` = the arguments, `installedNull` = no callback is installed yet")
+    # ---- jwt_checker_claim_set / claim_del / time_leeway (checker compilation of the template) ----
+    chk = com_raw
+    body = find_body(chk, r"\nint\s+FUNC\s*\(\s*claim_set\s*\)\s*\([^)]*jwt_claims_t[^)]*\)", "checker FUNC(claim_set)")
+    sk = Skeleton("jwt_checker_claim_set", body,
+                  atoms={"__cmd": ("cmdNull", "ptr"), "value": ("valueNull", "ptr"), "name": ("nameNull", "ptr")},
+                  effects={"decl name = NULL", "decl jval", "name = __get_name(type)", "jwt_set_SET_STR(&jval, name, value)", "jval->replace = 1"},
+                  flag_effects={"__cmd->c->claims |= type": "bitSet"},
+                  rets={"1": "1", "(__run_it(__cmd, __CLAIM, &jval, __setter) ? 1 : 0)": "storeFails"}, flags=("w", "bitSet"))
+    emit(sk, "checkerClaimSet", [("cmdNull", "Bool"), ("valueNull", "Bool"), ("nameNull", "Bool"), ("storeFails", "Nat")],
+         "jwt-common.c `jwt_checker_claim_set`: `nameNull` = the claim is not iss/sub/aud; `bitSet` = the claim's bit was set in the checker's mask; "
+         "`storeFails` = 1 when storing the expected value (replace) failed")
+    body = find_body(chk, r"\nint\s+FUNC\s*\(\s*claim_del\s*\)\s*\([^)]*jwt_claims_t[^)]*\)", "checker FUNC(claim_del)")
+    sk = Skeleton("jwt_checker_claim_del", body, atoms={"__cmd": ("cmdNull", "ptr"), "name": ("nameNull", "ptr")},
+                  effects={"decl name = NULL", "name = __get_name(type)"}, flag_effects={"__cmd->c->claims &= ~type": "bitCleared"},
+                  rets={"1": "1", "__deleter(__cmd->c->payload, name)": "delRet"}, flags=("w", "bitCleared"))
+    emit(sk, "checkerClaimDel", [("cmdNull", "Bool"), ("nameNull", "Bool"), ("delRet", "Nat")],
+         "jwt-common.c `jwt_checker_claim_del`: `bitCleared` = the claim's bit was cleared; `delRet` = what `__deleter` returned")
+    body = find_body(com_raw, r"\nint\s+FUNC\s*\(\s*time_leeway\s*\)\s*\([^)]*\)", "FUNC(time_offset/time_leeway)")
+    sk = Skeleton("FUNC(time_leeway)", body,
+                  atoms={"__cmd": ("cmdNull", "ptr"), "(claim == JWT_CLAIM_EXP)": ("isExp", "bool"), "(claim == JWT_CLAIM_NBF)": ("isNbf", "bool"),
+                         "(secs <= __DISABLE)": ("disable", "bool")},
+                  effects=set(), flag_effects={"__cmd->c->exp = secs": "expStored", "__cmd->c->nbf = secs": "nbfStored", "__cmd->c->claims &= ~claim": "bitCleared",
+                                               "__cmd->c->claims |= claim": "bitSet"},
+                  rets={"0": "0", "1": "1"}, flags=("w", "expStored", "nbfStored", "bitCleared", "bitSet"))
+    emit(sk, "timeSpan", [("cmdNull", "Bool"), ("isExp", "Bool"), ("isNbf", "Bool"), ("disable", "Bool")],
+         "jwt-common.c `jwt_builder_time_offset` / `jwt_checker_time_leeway` (one body): which field received `secs` as passed, and whether the claim's bit was "
+         "cleared (`secs <= __DISABLE`) or set")
     # ================= the builder side =================
     enc = strip_c(open(os.path.join(repo, "libjwt/jwt-encode.c")).read())
     # ---- jwt_head_setup ----
